@@ -130,8 +130,17 @@ func C20Scenario() *Scenario {
 			// the program of this controller answers for every version; instances are told apart by URL
 			if c.kind == "composite" {
 				tp := &TemplateProgram{ParentKey: "parent", ChildrenKey: "children", Kinds: c.childRes}
+				// a third of the customize programs also name the controller's own parent
+				// resource as related (parents that depend on their siblings): the customize
+				// manager and the controller then both hold a subscription to that informer
+				own := t.Pick(3, "related-own-parent-kind") == 2
+				pres := c.parentRes
 				progs[c.name] = &Program{Sync: tp.SyncResponse, Finalize: tp.FinalizeResponse, Customize: func(req Object) Object {
-					return Object{"relatedResources": []interface{}{Object{"apiVersion": "v1", "resource": "secrets", "names": []interface{}{"r0"}}}}
+					rules := []interface{}{Object{"apiVersion": "v1", "resource": "secrets", "names": []interface{}{"r0"}}}
+					if own {
+						rules = append(rules, Object{"apiVersion": pres.APIVersion(), "resource": pres.Plural, "names": []interface{}{"sibling"}})
+					}
+					return Object{"relatedResources": rules}
 				}}
 			} else {
 				dp := &DecorateProgram{Kinds: c.childRes, Tag: c.name}
